@@ -14,7 +14,7 @@
    device's observation sequence is decided per pair of runs of the real schedulers (code 91) and,
    for adapters / EPICS records, on the real adapter classes.  Property theorems only. *)
 From TV Require Import Base Gen.SourceConsts Model.Topics Model.Wiring Model.Ticker Model.Component Model.Sim
-  Model.SimTime Proofs.TopicsP Proofs.SimP Proofs.FlattenP Proofs.NonInterfP Proofs.FrameP Proofs.NonInterfLoopP Proofs.SimTimeP.
+  Model.SimTime Proofs.TopicsP Proofs.SimP Proofs.FlattenP Proofs.NonInterfP Proofs.FrameP Proofs.AgreeP Proofs.NonInterfNestedP Proofs.NonInterfLoopP Proofs.SimTimeP.
 Open Scope Z_scope.
 
 Theorem C10_topics_disjoint : forall a b,
@@ -62,24 +62,33 @@ Proof. exact tick_noninterference. Qed.
    their own callbacks at any times, hence extra ticks and merged ticks -- : when the extended run is complete, so is the base run with the same number of
    steps, and every base device has observed exactly the same sequence of (time, inputs); the
    states of everything outside X agree. *)
-Theorem C10_run_noninterference : forall cfg cfg' devf (isX : comp -> bool) fuel,
+Theorem C10_run_noninterference : forall cfg cfg' devf (isX : comp -> bool) (isXL : positive -> bool) fuel,
   l_order (level_of cfg top) = filter (fun ck : comp * ckind => negb (isX (fst ck))) (l_order (level_of cfg' top)) ->
   l_conns (level_of cfg top) = filter (oldc isX) (l_conns (level_of cfg' top)) ->
-  (forall ck, In ck (l_order (level_of cfg' top)) -> xkind cfg' isX fuel ck) ->
+  (forall ck, In ck (l_order (level_of cfg' top)) -> nkind cfg cfg' isX isXL fuel ck) ->
   (forall k, In k (l_conns (level_of cfg' top)) -> isX (out_comp k) = isX (in_comp k)) ->
-  isX ext_id = false -> isX exp_id = false ->
+  isX ext_id = false -> isX exp_id = false -> isXL top = false ->
   forall n initial h s1' o1',
     sim_run cfg' devf n fuel initial h = (s1', o1', true) ->
-    exists s1, sim_run cfg devf n fuel initial h = (s1, filter (notX isX) o1', true) /\ srel isX top s1 s1'.
-Proof. intros cfg cfg' devf isX fuel Hord Hcon. exact (run_noninterference cfg cfg' devf isX Hord Hcon fuel). Qed.
+    exists s1, sim_run cfg devf n fuel initial h = (s1, filter (notX isX) o1', true) /\ srel2 isX isXL top s1 s1'.
+Proof. intros cfg cfg' devf isX isXL fuel Hord Hcon. exact (run_noninterference cfg cfg' devf isX isXL Hord Hcon fuel). Qed.
 
-(* [xkind]: a component of the extended top level is a device, or a system simulation that
-   belongs to the added part with its whole subtree (any depth).  A nested tick touches only its
-   own subtree in the model: *)
+(* [nkind]: a component of the extended top level is a device; or a system simulation of the added
+   part with its whole subtree (any depth); or a system simulation of the base, on whose subtree the
+   two configurations coincide.  [isX] marks the components, [isXL] the scheduler levels of the added
+   part.  Two structural facts about the nested model carry the proof: a nested tick touches only its
+   own subtree, and depends only on its own subtree's part of the state: *)
 Theorem C10_system_footprint : forall cfg devf f lv time chg s,
   let '(s2, _, _, ob) := on_tick_level cfg devf f lv time chg s in
   framed (devices_below cfg f lv) (levels_below cfg f lv) s s2 ob.
 Proof. exact on_tick_level_framed. Qed.
+
+Theorem C10_system_depends_on_subtree_only : forall cfg cfg' devf f lv, same_below cfg cfg' f lv -> forall time chg s s',
+  agree (devices_below cfg f lv) (levels_below cfg f lv) s s' ->
+  let '(s2, o, ca, ob) := on_tick_level cfg devf f lv time chg s in
+  let '(s2', o', ca', ob') := on_tick_level cfg' devf f lv time chg s' in
+  o' = o /\ ca' = ca /\ ob' = ob /\ agree (devices_below cfg f lv) (levels_below cfg f lv) s2 s2'.
+Proof. exact on_tick_level_agree. Qed.
 
 (* the same for the master model with real time (Model/Sim.v [simulate_full], the model every
    whole-simulation run of the real schedulers is compared with), at speed 1, no interrupts, devices
@@ -101,14 +110,14 @@ Proof.
   intros cfg cfg' devf isX Hord Hcon Hk Hsep Hext Hexp Hwell n fuel initial t_end Hfin.
   assert (Hflat : forall ck, In ck (l_order (level_of cfg top)) -> snd ck = KDev).
   { intros ck Hi. rewrite Hord in Hi. apply filter_In in Hi. apply Hk. apply Hi. }
-  assert (Hxk : forall ck, In ck (l_order (level_of cfg' top)) -> xkind cfg' isX fuel ck).
-  { intros ck Hi. unfold xkind. rewrite (Hk ck Hi). exact I. }
+  assert (Hxk : forall ck, In ck (l_order (level_of cfg' top)) -> nkind cfg cfg' isX (fun _ => false) fuel ck).
+  { intros ck Hi. unfold nkind. rewrite (Hk ck Hi). exact I. }
   pose proof (master_is_sim_loop cfg' devf Hk Hwell fuel initial t_end n) as H'.
   pose proof (master_is_sim_loop cfg devf Hflat Hwell fuel initial t_end n) as H.
   cbv zeta in H, H'.
   destruct (sim_run cfg' devf n fuel initial (initial + t_end)) as [[s1' o1'] fin'] eqn:E'.
   cbn [snd] in Hfin. subst fin'.
-  destruct (run_noninterference cfg cfg' devf isX Hord Hcon fuel Hxk Hsep Hext Hexp n initial (initial + t_end) s1' o1' E') as [s1 [E _]].
+  destruct (run_noninterference cfg cfg' devf isX (fun _ => false) Hord Hcon fuel Hxk Hsep Hext Hexp eq_refl n initial (initial + t_end) s1' o1' E') as [s1 [E _]].
   rewrite E in H. destruct H as [_ H]. destruct H' as [_ H']. rewrite H, H'. reflexivity.
 Qed.
 
@@ -135,25 +144,35 @@ Example C10_example :
   filter (notX (fun c => Pos.leb 7 c)) ob' = ob /\ length ob = 2%nat /\ length ob' = 4%nat.
 Proof. vm_compute. repeat split; reflexivity. Qed.
 
-(* non-vacuity with a nested added part: the system simulation 7 (level 2) contains the periodic
-   device 8 and the inner system 9 (level 3) with device 10 *)
-Example C10_nested_part_example :
+(* non-vacuity with nesting on both sides: the base is 3 -> [system 4 (level 5): device 6 -> exposed] -> 11;
+   the added part is the system 7 (level 2) with the periodic device 8 and the inner system 9 (level 3) with
+   device 10 *)
+Example C10_nested_example :
   let dev : devfun := fun c n t inp => ([(1%positive, Zpos c + n)],
-                        if Pos.eqb c 3 then Some (t + 10) else if Pos.eqb c 8 then Some (t + 4) else if Pos.eqb c 10 then Some (t + 7) else None) in
-  let l := {| l_order := [(3%positive, KDev); (4%positive, KDev)]; l_conns := [(3, 1, 4, 1)%positive] |} in
-  let cfg' := [(1%positive, {| l_order := [(7%positive, KSys 2); (3%positive, KDev); (4%positive, KDev)]; l_conns := [(3, 1, 4, 1)%positive] |});
+                        if Pos.eqb c 3 then Some (t + 10) else if Pos.eqb c 8 then Some (t + 4) else if Pos.eqb c 10 then Some (t + 7)
+                        else if Pos.eqb c 6 then Some (t + 6) else None) in
+  let base_top := {| l_order := [(3%positive, KDev); (4%positive, KSys 5); (11%positive, KDev)]; l_conns := [(3, 1, 4, 1); (4, 1, 11, 1)]%positive |} in
+  let inner5 := {| l_order := [(6%positive, KDev)]; l_conns := [(1, 1, 6, 1); (6, 1, 2, 1)]%positive |} in
+  let cfg := [(1%positive, base_top); (5%positive, inner5)] in
+  let cfg' := [(1%positive, {| l_order := [(7%positive, KSys 2); (3%positive, KDev); (4%positive, KSys 5); (11%positive, KDev)];
+                              l_conns := [(3, 1, 4, 1); (4, 1, 11, 1)]%positive |});
+               (5%positive, inner5);
                (2%positive, {| l_order := [(8%positive, KDev); (9%positive, KSys 3)]; l_conns := [] |});
                (3%positive, {| l_order := [(10%positive, KDev)]; l_conns := [] |})] in
-  let isX := fun c => Pos.leb 7 c in
-  (forall ck, In ck (l_order (level_of cfg' top)) -> xkind cfg' isX 4 ck) /\
-  let '(_, ob, fin) := sim_run [(1%positive, l)] dev 60 4 0 20 in
+  let isX := fun c => Pos.leb 7 c && Pos.leb c 10 in
+  let isXL := fun l => Pos.eqb l 2 || Pos.eqb l 3 in
+  (forall ck, In ck (l_order (level_of cfg' top)) -> nkind cfg cfg' isX isXL 4 ck) /\
+  let '(_, ob, fin) := sim_run cfg dev 60 4 0 20 in
   let '(_, ob', fin') := sim_run cfg' dev 60 4 0 20 in
-  fin = true /\ fin' = true /\ filter (notX isX) ob' = ob /\ length ob = 6%nat /\ (length ob > 0)%nat /\ (length ob' > length ob)%nat.
+  fin = true /\ fin' = true /\ filter (notX isX) ob' = ob /\ (length ob > 6)%nat /\ (length ob' > length ob)%nat.
 Proof.
   split.
-  - intros ck [E|[E|[E|[]]]]; subst ck; unfold xkind; cbn [snd fst]; try exact I.
-    split; [reflexivity|]. split.
-    + vm_compute. intros d [E|[E|[]]]; subst d; reflexivity.
-    + vm_compute. intros [E|[E|[]]]; discriminate.
+  - intros ck [E|[E|[E|[E|[]]]]]; subst ck; unfold nkind; cbn [snd fst]; try exact I.
+    + left. split; [reflexivity|]. split; vm_compute.
+      * intros d [E|[E|[]]]; subst d; reflexivity.
+      * intros l [E|[E|[]]]; subst l; reflexivity.
+    + right. split; [reflexivity|]. split; [vm_compute; intros d [E|[]]; subst d; reflexivity|]. split.
+      * vm_compute. intros l [E|[]]. subst l. split; [reflexivity | discriminate].
+      * cbn. split; [reflexivity|]. intros c lv' [E|[]]. discriminate.
   - vm_compute. repeat split; try reflexivity; lia.
 Qed.
